@@ -8,7 +8,7 @@ import vlib
 META = {
     "property_id": "C19",
     "level": "proof",
-    "technique": "Coq theorems over an executable model of gencommon's FindInterface pipeline (parameter naming for all parameter lists, embedded-method merge for all embedding trees, type-reference rendering and import activation for all type ASTs) + a build farm: generated packages run through the real FindInterface, every observation judged inside Coq against model and specification, the rendered interface compiled against the original type",
+    "technique": "Coq theorems over an executable model of gencommon's FindInterface pipeline (parameter naming for all parameter lists, embedded-method merge for all embedding trees, type-reference rendering and import activation for all type ASTs) + translator ties (params.go/method.go regenerated as Gallina and proved equal to the model each run; basic-kind table) + a build farm: generated packages run through the real FindInterface, every observation judged inside Coq against model and specification, the rendered interface compiled against the original type",
     "design_ref": "DESIGN.md §4 C19",
     "level_text": "Proof: IFace*Proofs.v show for the model of params.go/method.go/interface.go/imports.go (current tree) that parameter names are pairwise distinct valid identifiers keeping the user's names (all parameter lists, any length, any mix of unnamed/_/user-chosen names incl. arg0/ret0/ctx/err), that the collected method set is exactly own + promoted-and-unambiguous methods with the private filter, and that every rendered type reference denotes the original type under the active imports, which contain every qualifier used (Props/C19.v). The model is tied to the source by a farm of generated packages per the property's quantifier; compiler acceptance of the rendered interface is observed, not proved (partial).",
     "level_note": "Trusted: Coq 8.16.1 kernel + vm_compute; hand-written model tied by correspondence only; go/types (type ASTs, TypeImplements oracle bits, method set cross-check), go/packages, the Go compiler as the judge of 'compiles and fits'; harness generator. No axioms.",
@@ -19,6 +19,7 @@ TRUSTED = [
     "hand-written model coq/theories/IFaceModel.v of gencommon/{params,method,imports,interface}.go, tied by correspondence only",
     "go/types and golang.org/x/tools/go/packages: the type ASTs, the per-parameter 'implements context.Context / error' bits (gencommon.TypeImplements) and the method set of *T are read off them; the model's formalisation of the selector rule (go_ms) is compared with go/types on every case",
     "the Go 1.23 compiler: acceptance of `type Rendered interface{...}; var _ Rendered = (*T)(nil)` is observed (partial: no Gallina model of the compiler)",
+    "translators harness/cmd/xlate_params (go/parser; subset and reference-threading convention in its header; primitives coq/theories/IFaceGenPrims.v incl. the loop bound loop_fuel) and harness/cmd/xlate_basic_kinds; both validated by the correspondence run",
     "Go harness harness/cmd/c19 (program generator, source printer, intent cross-check, import pruning of the rendered file)",
 ]
 
@@ -64,6 +65,39 @@ def minimise(ctx, binp, j, feats):
     return j
 
 
+def shapes_of(jsons, bad):
+    """one entry per distinct shape of failure: [size, index, code, features] of its smallest case"""
+    shapes = {}
+    for i, code in bad:
+        feats = dict(il.classify(jsons[i]), code=code)
+        key = json.dumps({k: v for k, v in feats.items()
+                          if k not in ("methods_involved", "options", "kind", "embedding_height")}, sort_keys=True)
+        size = len(json.dumps(jsons[i]["tree"]))
+        if key not in shapes or size < shapes[key][0]:
+            shapes[key] = [size, i, code, feats]
+    return list(shapes.values())
+
+
+def translator_ties(ctx, pending):
+    """(T) Tie_C19: params.go/method.go translated to Gallina = the model C19_names is about;
+    Tie_C19_kinds: every basic kind a parameter can have is rendered as a predeclared type (and as
+    the model's TBasic branch prints it), from go/types' table and imports.go's basic-type clause."""
+    repo = ctx.copy_repo()
+    res = {}
+    for cmd, args, gen, tie in (
+            ("xlate_params", ["-src", os.path.join(repo, "gencommon")], "ParamsGen", "Tie_C19"),
+            ("xlate_basic_kinds", ["-repo", repo], "BasicKindsGen", "Tie_C19_kinds")):
+        ok, d = ctx.translator_tie(cmd, args, gen, tie)
+        res[tie] = ctx.cov.get("translator_tie") if ok else {"status": "BROKEN", "detail": d[-600:]}
+        ctx.log("translator tie %s:" % tie, "OK" if ok else "BROKEN", "-", d.splitlines()[0])
+        if not ok:
+            g = os.path.join(ctx.gen, gen + ".v")
+            pending.append(({"unchecked": "translator tie %s: gencommon is no longer what the theorems are about" % tie,
+                             "generated": open(g).read()[-2500:] if os.path.isfile(g) else "",
+                             "detail": d[-3000:]}, {"kind": "translator_tie", "tie": tie}))
+    ctx.cov["translator_tie"] = res
+
+
 def run(ctx):
     ctx.trusted = TRUSTED
     ctx.assumptions = [
@@ -71,12 +105,20 @@ def run(ctx):
         "the aliases of the active imports are pairwise distinct and differ from the package-level names of the target package (alias_injective; holds for every file that compiles, can fail only through on-demand imports)",
         "parameter names given by the user are Go identifiers (the source compiles)",
     ]
-    ctx.obligations_or_violation()
-    ok, log = ctx.coq_build(["theories/IFaceJudge.vo"])
+    # broken obligations / ties are held back: cases with a concrete failing input (verdict 1) are
+    # reported first and get the replay slots; `no-failing-input-found` lines only when a widened
+    # farm run finds no such case either
+    pending = []
+    ok, detail = ctx.proof_obligations()
+    ctx.log("proof obligations:", "OK" if ok else "BROKEN", "-", detail.splitlines()[0])
     if not ok:
-        ctx.report({"unchecked": "coq build of the judge", "detail": log[-3000:]}, {"kind": "coq_build"},
-                   failing_input=False)
+        pending.append(({"unchecked": "theorem file Props/C19.v", "detail": detail}, {"kind": "proof_obligation"}))
+    ok, log = ctx.coq_build(["theories/IFaceJudge.vo", "theories/IFaceGenPrims.vo", "theories/GenBuildModel.vo"])
+    if not ok:
+        ctx.report({"unchecked": "coq build of the judge / tie primitives", "detail": log[-3000:]},
+                   {"kind": "coq_build"}, failing_input=False)
         return
+    translator_ties(ctx, pending)
     ctx.add_repo_file("gencommon/export_verif.go", il.EXPORT_VERIF)
     binp, log = ctx.build_harness("c19")
     if not binp:
@@ -85,7 +127,8 @@ def run(ctx):
         return
     quick = ctx.tier == "quick"
     runs = [("corpus", ["-mode", "corpus"]),
-            ("random", ["-mode", "random", "-n", 45 if quick else 600])]
+            ("random", ["-mode", "random", "-n", 38 if quick else 600]),
+            ("shapes", ["-mode", "shapes", "-n", 6 if quick else 180])]
     cdir = os.path.join(vlib.VERIF, "corpus", "C19")
     descs = []
     for k, name in enumerate(sorted(os.listdir(cdir)) if os.path.isdir(cdir) else []):
@@ -103,34 +146,66 @@ def run(ctx):
         return
     ctx.log("farm: %d cases from %d programs" % (len(jsons), len({j["prog"] + j["kind"] for j in jsons})))
     allbad, nt, err = judge(ctx, terms, "cases", fn="c19_judge_all", nontrivial="c19_nontrivial")
-    bad = [(i, c) for i, c in allbad if c < 10]
-    info = [(i, c) for i, c in allbad if c >= 10]
     if err:
         ctx.report({"unchecked": "in-kernel evaluation of the correspondence", "detail": err},
                    {"kind": "coq_eval"}, failing_input=False)
         return
-    err2 = None
-    # one replay per distinct shape of failure (smallest case of the shape), not one per option combination
-    shapes = {}
-    for i, code in bad:
-        feats = dict(il.classify(jsons[i]), code=code)
-        key = json.dumps({k: v for k, v in feats.items()
-                          if k not in ("methods_involved", "options", "kind", "embedding_height")}, sort_keys=True)
-        size = len(json.dumps(jsons[i]["tree"]))
-        if key not in shapes or size < shapes[key][0]:
-            shapes[key] = (size, i, code, feats)
+    bad = [(i, c) for i, c in allbad if c < 10]
+    info = [(i, c) for i, c in allbad if c >= 10]
+    shapes = shapes_of(jsons, bad)
     ctx.log("judged: %d bad case(s) in %d shape(s)" % (len(bad), len(shapes)))
-    for _, (size, i, code, feats) in sorted(shapes.items(), key=lambda kv: kv[1][0]):
+    widened = None
+    if (shapes or pending) and not any(code == 1 for _, _, code, _ in shapes):
+        # something is wrong but no concrete failing input yet: widen the farm before giving up
+        t2, j2, err = run_harness(ctx, binp, [("widen", ["-mode", "random", "-n", 100, "-seed", ctx.seed + 7919]),
+                                              ("widenshapes", ["-mode", "shapes", "-n", 30, "-seed", ctx.seed + 104729])])
+        if not err:
+            b2, _, err = judge(ctx, t2, "widen", fn="c19_judge_all")
+            if not err:
+                w1 = [(len(jsons) + i, c) for i, c in b2 if c == 1]
+                jsons_w = jsons + j2
+                found = shapes_of(jsons_w, w1)
+                widened = {"cases": len(j2), "failing_inputs": len(w1)}
+                ctx.log("widened farm: %d more cases, %d with a failing input" % (len(j2), len(w1)))
+                if found:
+                    for sh in found:
+                        sh[3]["found_by"] = "widened farm run"
+                    shapes = found + shapes
+                    jsons = jsons_w
+    have1 = any(code == 1 for _, _, code, _ in shapes)
+    # verdict-1 shapes first (smallest first), then the rest
+    shapes.sort(key=lambda sh: (sh[2] != 1, sh[0]))
+    also = [r["unchecked"] for r, _ in pending]
+    for size, i, code, feats in shapes:
+        if have1 and code != 1:
+            continue          # a failing input exists: no `no-failing-input-found` lines
         j = jsons[i]
         if code in (1, 2) and ctx.nreplay < 4:
-            j2 = minimise(ctx, binp, j, feats)
-            if j2 is not j:
-                feats = dict(il.classify(j2), code=code, minimised=True)
-                j = j2
+            j2m = minimise(ctx, binp, j, feats)
+            if j2m is not j:
+                feats = dict(il.classify(j2m), code=code, minimised=True, **({"found_by": feats["found_by"]} if "found_by" in feats else {}))
+                j = j2m
         rep = {"case": il.view(j), "verdict": VERDICT.get(code, str(code)),
                "cases_of_this_shape": sum(1 for k, c in bad if c == code),
                "replay_cmd": "./check C19 --replay <this file>"}
+        if also:
+            rep["also_unchecked"] = also
+        if have1:
+            rep["other_disagreements_not_listed"] = sum(1 for sh in shapes if sh[2] != 1)
         ctx.report(rep, feats, failing_input=(code == 1))
+    if not have1:
+        for rep, feats in pending:
+            if widened:
+                rep = dict(rep, widened_search=widened)
+            ctx.report(rep, feats, failing_input=False)
+    elif pending:
+        ctx.log("also broken (recorded in the replay files):", "; ".join(also))
+    err2 = None
+    cover = il.shape_coverage(jsons)
+    ctx.cov["shape_coverage"] = cover
+    missing = [k for k, v in cover.items() if not v]
+    if missing:
+        ctx.log("WARNING: regression-prone shapes absent from this run:", ", ".join(missing))
     ctx.cov.update({
         "evaluations": len(jsons),
         "programs": len({j["prog"] + "/" + j["kind"] for j in jsons}),
